@@ -236,3 +236,298 @@ pub fn run(tier: &str, seed: u64) -> Sink {
     sink.s(json!({"c03_semi": {"generated": n}}));
     sink
 }
+
+/// C03 — ring 2 for Model/HangOp.lean: a hung binary operator with comments in front of it, behind it and in
+/// front of its right operand; the bytes between the two operands must be the model's rendering.
+pub fn run_hang(tier: &str, seed: u64) -> Sink {
+    let n = if tier == "thorough" { 30000 } else { 5000 };
+    let ops = ["+", "..", "and", "==", "^", "*"];
+    let ctexts = ["c", "c  ", "", "é"];
+    let btexts = ["b", "b\nb", ""];
+    let parts = par_map(n, threads(), |i| {
+        let mut sink = Sink::default();
+        let mut r = Rng::new(seed.wrapping_mul(9973) ^ (i as u64) ^ 0x4A46);
+        let op = ops[r.below(ops.len())];
+        let comment = |r: &mut Rng| -> (String, bool) {
+            if r.chance(1, 2) {
+                (format!("--{}", ctexts[r.below(ctexts.len())]), true)
+            } else {
+                let lvl = r.below(2);
+                let eqs = "=".repeat(lvl);
+                (format!("--[{}[{}]{}]", eqs, btexts[r.below(btexts.len())], eqs), false)
+            }
+        };
+        let nested = r.chance(1, 3);
+        let pad = if nested { "\t" } else { "" };
+        let mut src = String::new();
+        if nested {
+            src.push_str("do\n");
+        }
+        src.push_str(pad);
+        src.push_str("local total = first_value_name\n");
+        // comments in front of the operator: on lines of their own
+        let mut count = 0;
+        for _ in 0..r.below(3) {
+            let (c, is_line) = comment(&mut r);
+            src.push_str(pad);
+            src.push_str("\t");
+            src.push_str(&c);
+            src.push_str(if is_line || r.chance(2, 3) { "\n" } else { " " });
+            count += 1;
+        }
+        src.push_str(pad);
+        src.push_str("\t");
+        src.push_str(op);
+        // comments behind the operator, on its line
+        let mut open = true;
+        for _ in 0..r.below(3) {
+            if !open {
+                break;
+            }
+            let (c, is_line) = comment(&mut r);
+            src.push(' ');
+            src.push_str(&c);
+            count += 1;
+            if is_line {
+                open = false;
+            }
+        }
+        if !open || r.chance(1, 2) {
+            src.push('\n');
+            // comments in front of the right operand: on lines of their own
+            for _ in 0..r.below(3) {
+                let (c, is_line) = comment(&mut r);
+                src.push_str(pad);
+                src.push_str("\t");
+                src.push_str(&c);
+                src.push_str(if is_line || r.chance(2, 3) { "\n" } else { " " });
+                count += 1;
+            }
+            src.push_str(pad);
+            src.push_str("\t");
+        } else {
+            src.push(' ');
+        }
+        src.push_str("second_value_name\n");
+        if nested {
+            src.push_str("end\n");
+        }
+        if count == 0 {
+            return sink;
+        }
+        let mut c = cfg();
+        c.syntax = LuaVersion::Lua51;
+        let crlf = r.chance(1, 3);
+        c.line_endings = if crlf { LineEndings::Windows } else { LineEndings::Unix };
+        if !parses(&src, c.syntax) {
+            return sink;
+        }
+        let toks = match crate::lexutil::tokens(&src, c.syntax) {
+            Some(t) => t,
+            None => return sink,
+        };
+        let is_ident = |t: &Token, name: &str| matches!(t.token_type(), TokenType::Identifier { identifier } if identifier.as_str() == name);
+        let li = match toks.iter().position(|t| is_ident(t, "first_value_name")) { Some(k) => k, None => return sink };
+        let ri = match toks.iter().position(|t| is_ident(t, "second_value_name")) { Some(k) => k, None => return sink };
+        let oi = match (li + 1..ri).find(|&k| significant(&toks[k])) { Some(k) => k, None => return sink };
+        // the left operand's trailing trivia ends with the line; the operator's leading trivia is what follows
+        let mut k = li + 1;
+        while k < oi {
+            let is_nl = matches!(toks[k].token_type(), TokenType::Whitespace { characters } if characters.contains('\n'));
+            k += 1;
+            if is_nl {
+                break;
+            }
+        }
+        let op_lead = triv_items(&toks[k.min(oi)..oi]);
+        let mut e = oi + 1;
+        while e < ri {
+            let is_nl = matches!(toks[e].token_type(), TokenType::Whitespace { characters } if characters.contains('\n'));
+            e += 1;
+            if is_nl {
+                break;
+            }
+        }
+        let op_trail = triv_items(&toks[oi + 1..e.min(ri)]);
+        let rhs_lead = triv_items(&toks[e.min(ri)..ri]);
+        if let Outcome::Ok(out) = fmt(&src, c, None, false) {
+            let a = match out.find("first_value_name") { Some(p) => p + "first_value_name".len(), None => return sink };
+            let b = match out.rfind("second_value_name") { Some(p) => p, None => return sink };
+            if a > b {
+                return sink;
+            }
+            let indent = if nested { "\t\t" } else { "\t" };
+            // comments on the operator itself force the hanging path (binop_expression_contains_comments); with comments
+            // only in front of the right operand the layout may keep the operator where it is - then hang_binop did not run
+            let eol = if crlf { "\r\n" } else { "\n" };
+            let hung = out[a..b].ends_with(&format!("{}{}{} ", eol, indent, op));
+            let on_operator = op_lead.contains('L') || op_lead.contains('B') || op_trail.contains('L') || op_trail.contains('B');
+            if !hung && !on_operator {
+                return sink;
+            }
+            sink.q(
+                format!("hangop {} {} {} {} {} {}", if crlf { "crlf" } else { "lf" }, hex(indent.as_bytes()), hex(op.as_bytes()), op_lead, op_trail, rhs_lead),
+                hex(out[a..b].as_bytes()),
+            );
+        }
+        sink
+    });
+    let mut sink = Sink::default();
+    for s in parts {
+        sink.merge(s);
+    }
+    sink.s(json!({"c03_hangop": {"generated": n}}));
+    sink
+}
+
+/// C03 — ring 2 for Model/HangOp.lean `FieldKey`: a named field of a multi-line table with comments in front of
+/// the key, behind it and around `=`; the bytes in front of the key must be the model's rendering, and ` = ` must
+/// be all there is between key and value.
+pub fn run_fieldkey(tier: &str, seed: u64) -> Sink {
+    let n = if tier == "thorough" { 30000 } else { 5000 };
+    let ctexts = ["c", "c  ", "", "é"];
+    let btexts = ["b", "b\nb", ""];
+    let parts = par_map(n, threads(), |i| {
+        let mut sink = Sink::default();
+        let mut r = Rng::new(seed.wrapping_mul(4421) ^ (i as u64) ^ 0xF1E1D);
+        let comment = |r: &mut Rng, allow_line: bool| -> (String, bool) {
+            if allow_line && r.chance(1, 2) {
+                (format!("--{}", ctexts[r.below(ctexts.len())]), true)
+            } else {
+                let lvl = r.below(2);
+                let eqs = "=".repeat(lvl);
+                (format!("--[{}[{}]{}]", eqs, btexts[r.below(btexts.len())], eqs), false)
+            }
+        };
+        let bracket = r.chance(1, 2);
+        let key_text = if bracket { "[\"key_name\"]" } else { "key_name" };
+        let mut src = String::from("local tbl = {\n\tfirst_field = 1,\n");
+        let mut count = 0;
+        // in front of the key: lines of their own (blank lines allowed)
+        for _ in 0..r.below(3) {
+            if r.chance(1, 4) {
+                src.push('\n');
+            }
+            let (c, is_line) = comment(&mut r, true);
+            src.push('\t');
+            src.push_str(&c);
+            src.push_str(if is_line || r.chance(2, 3) { "\n" } else { " " });
+            count += 1;
+        }
+        src.push('\t');
+        src.push_str(key_text);
+        // behind the key
+        let mut open = true;
+        for _ in 0..r.below(3) {
+            if !open {
+                break;
+            }
+            let (c, is_line) = comment(&mut r, true);
+            src.push(' ');
+            src.push_str(&c);
+            count += 1;
+            if is_line {
+                open = false;
+            }
+        }
+        if !open || r.chance(1, 3) {
+            src.push('\n');
+            for _ in 0..r.below(2) {
+                let (c, is_line) = comment(&mut r, true);
+                src.push('\t');
+                src.push_str(&c);
+                src.push_str(if is_line || r.chance(1, 2) { "\n" } else { " " });
+                count += 1;
+            }
+            src.push('\t');
+        } else {
+            src.push(' ');
+        }
+        src.push('=');
+        let mut open = true;
+        for _ in 0..r.below(3) {
+            if !open {
+                break;
+            }
+            let (c, is_line) = comment(&mut r, true);
+            src.push(' ');
+            src.push_str(&c);
+            count += 1;
+            if is_line {
+                open = false;
+            }
+        }
+        src.push_str(if open { " " } else { "\n\t" });
+        src.push_str("value_name,\n}\n");
+        if count == 0 {
+            return sink;
+        }
+        let mut c = cfg();
+        c.syntax = LuaVersion::Lua51;
+        let crlf = r.chance(1, 3);
+        c.line_endings = if crlf { LineEndings::Windows } else { LineEndings::Unix };
+        if !parses(&src, c.syntax) {
+            return sink;
+        }
+        let toks = match crate::lexutil::tokens(&src, c.syntax) {
+            Some(t) => t,
+            None => return sink,
+        };
+        let is_ident = |t: &Token, name: &str| matches!(t.token_type(), TokenType::Identifier { identifier } if identifier.as_str() == name);
+        // first and last token of the key: the name itself, or `[` and `]`
+        let (ki, kj) = if bracket {
+            let si = match toks.iter().position(|t| matches!(t.token_type(), TokenType::StringLiteral { literal, .. } if literal.as_str() == "key_name")) { Some(k) => k, None => return sink };
+            (si - 1, si + 1)
+        } else {
+            match toks.iter().position(|t| is_ident(t, "key_name")) { Some(k) => (k, k), None => return sink }
+        };
+        let vi = match toks.iter().position(|t| is_ident(t, "value_name")) { Some(k) => k, None => return sink };
+        let ei = match (kj + 1..vi).find(|&k| significant(&toks[k])) { Some(k) => k, None => return sink };
+        // previous significant token: the comma of the first field; its trailing trivia runs to the end of its line
+        let pi = match (0..ki).rev().find(|&k| significant(&toks[k])) { Some(k) => k, None => return sink };
+        let line_end = |from: usize, to: usize| -> usize {
+            let mut k = from;
+            while k < to {
+                let is_nl = matches!(toks[k].token_type(), TokenType::Whitespace { characters } if characters.contains('\n'));
+                k += 1;
+                if is_nl {
+                    break;
+                }
+            }
+            k.min(to)
+        };
+        let kl_from = line_end(pi + 1, ki);
+        let key_lead = triv_items(&toks[kl_from..ki]);
+        let kt_to = line_end(kj + 1, ei);
+        let key_trail = triv_items(&toks[kj + 1..kt_to]);
+        let eq_lead = triv_items(&toks[kt_to..ei]);
+        let et_to = line_end(ei + 1, vi);
+        let eq_trail = triv_items(&toks[ei + 1..et_to]);
+        if et_to != vi && toks[et_to..vi].iter().any(|t| !matches!(t.token_type(), TokenType::Whitespace { .. })) {
+            return sink; // comments in front of the value belong to the value (not generated)
+        }
+        if let Outcome::Ok(out) = fmt(&src, c, None, false) {
+            let eol = if crlf { "\r\n" } else { "\n" };
+            let head = format!("local tbl = {{{}\tfirst_field = 1,{}", eol, eol);
+            let kpos = match out.rfind(key_text) { Some(p) => p, None => return sink };
+            if !out.starts_with(&head) || kpos < head.len() {
+                sink.v("C03", "fieldkey:first-field-changed", json!({"input": src, "config": cfg_to_string(&c), "output": out}));
+                return sink;
+            }
+            sink.q(
+                format!("fieldkey {} {} {} {} {} {} {}", if crlf { "crlf" } else { "lf" }, hex(b"\t"), if bracket { "bracket" } else { "name" }, key_lead, key_trail, eq_lead, eq_trail),
+                { let s = &out[head.len()..kpos]; if s.is_empty() { "-".to_string() } else { hex(s.as_bytes()) } },
+            );
+            if !out[kpos..].starts_with(&format!("{} = value_name", key_text)) {
+                sink.v("C03", "fieldkey:trivia-left-between-key-and-value", json!({"input": src, "config": cfg_to_string(&c), "output": out}));
+            }
+        }
+        sink
+    });
+    let mut sink = Sink::default();
+    for s in parts {
+        sink.merge(s);
+    }
+    sink.s(json!({"c03_fieldkey": {"generated": n}}));
+    sink
+}
